@@ -479,19 +479,18 @@ def merge_projections(arr):
     if len(arr) == 1 or not has_none(arr[0]):
         return arr[0]
     sparse_fa = np.copy(arr[0])
-    i = 0
-    k = 1
-    while i < len(sparse_fa) and k < len(arr):
-        fa = arr[k]
-        j = 0
-        while i < len(sparse_fa) and j < len(fa):
-            if sparse_fa[i] is None:
-                sparse_fa[i] = fa[j]
-                j += 1
-                while j < len(fa) and safe_eq(fa[j], None):
-                    j += 1
+    # Each further argument list supplies, position by position, the holes that
+    # are still open: its n-th entry goes to the n-th open hole, and an entry
+    # that is itself omitted (None) leaves that hole open for a later list.
+    for fa in arr[1:]:
+        i = 0
+        for a in fa:
+            while i < len(sparse_fa) and sparse_fa[i] is not None:
+                i += 1
+            if i >= len(sparse_fa):
+                break
+            sparse_fa[i] = a
             i += 1
-        k += 1
     return sparse_fa
 
 
